@@ -49,7 +49,7 @@ class Report:
         os.makedirs(os.path.join(VERIF, 'replays'), exist_ok=True)
         h = hashlib.sha1(json.dumps([self.pid, site, klass], sort_keys=True).encode()).hexdigest()[:10]
         path = os.path.join('replays', '%s_%s.json' % (self.pid, h))
-        doc = {'property': self.pid, 'site': site, 'class': klass, 'detail': detail, 'no_failing_input_found': bool(no_input)}
+        doc = {'property': self.pid, 'site': site, 'class': klass, 'detail': detail, 'no_failing_input_found': bool(no_input), 'tier': self.tier, 'seed': int(self.seed)}
         doc.update(payload)
         json.dump(doc, open(os.path.join(VERIF, path), 'w'), indent=1, default=str)
         self.violations.append({'site': site, 'class': klass, 'detail': detail, 'replay': path, 'no_input': bool(no_input)})
